@@ -15,6 +15,9 @@ Streams of C09.
   c09.perm        lines perm                   lines: ','-separated  <dir>:<hex of the line's text>
         out = handler chain of the block as written (outside in, ',') '#' chain of the reordered block
               '#' equal | differ:<request>
+  c09.history     typos scenario written-order how
+        out = r|a per rejected-for-a-typo load made before '#' the probe's observation on the site
+              loaded afterwards '#' casket.ValidDirectives("http") afterwards
 -/
 namespace Driver.C09
 open Casket.Exec Casket.ExecSpec
